@@ -157,6 +157,16 @@ def run(tier):
     with Pool() as pool:
         recs = pool.map("vlib.observe:run_case", cases, timeout=180)
         ast, ares = pool.call(0, "vlib.names:table_api", {"names": [".".join(p) for p in api_names]}, timeout=120)
+        pv_cases = [[c["sql"], c["dialect"], c["sql"].split(" from ", 1)[1]] for c, m in zip(cases, meta) if m[0] == "from" and c["dialect"] != "non-validating"]
+        pst, pres = pool.call(1, "vlib.names:parsed_vs_built", {"cases": pv_cases}, timeout=600)
+    run_.need("parsed_vs_built_equal_pairs")
+    if run_.pool_status(pst, pres, "parsed_vs_built"):
+        for r in pres:
+            run_.case(evidence.sha(("pvb", r["sql"], r["dialect"])), nontrivial="exc" not in r)
+            if r.get("equal_seen"):
+                run_.observe("parsed_vs_built_equal_pairs")
+            if r.get("bad"):
+                run_.judge({"sql": r["sql"], "dialect": r["dialect"], "table_name": r["name"]}, "parsed_and_built_entities_equal_but_not_hash_compatible", {"problems": r["bad"], "parsed": r["parsed"], "built": r["built"]}, kf_id=None)
     if run_.pool_status(ast, ares, "table_api"):
         for parts, r in zip(api_names, ares):
             name = ".".join(parts)
